@@ -123,9 +123,9 @@ void Format::format( std::ostream& dest, const detail::LogMsg& msg) const
          break;
       case FieldTypes::attribute:
          {
-            auto  attr_value( msg.getAttributeValue( field_def.mConstant));
-            if (attr_value.empty())
-               attr_value = Logging::instance().getAttribute( field_def.mConstant);
+            auto const  attr_value( msg.hasAttribute( field_def.mConstant)
+               ? msg.getAttributeValue( field_def.mConstant)
+               : Logging::instance().getAttribute( field_def.mConstant));
             append( dest, field_def, attr_value);
          } // end scope
          break;
